@@ -89,6 +89,17 @@ class Loop:
                                 self.path_to(parent, s), (xp, yp))
             if not self.nonblocking(s):
                 return ('blocking', self.path_to(parent, s), None)
+            if self.moore:
+                # a Moore implementation does not read the next environment
+                # values
+                a = self.action[s]
+                for yp in range(self.ny):
+                    vals = {bool(a[xp * self.ny + yp]) for xp in range(self.nx)}
+                    if len(vals) > 1:
+                        return ('Moore implementation depends on the next '
+                                'environment values',
+                                self.path_to(parent, s), (None, yp))
+        self.seen, self.parent = seen, parent
         return None
 
     def sccs(self, nodes, succ):
